@@ -22,10 +22,10 @@ EXPLANATION = (
     '(Kahn order, least fixed point of the skip rule, written independently) is a formula over the still-symbolic '
     'booleans; one more query per shard proves that the explored path conditions cover the whole bounded input '
     'space. Bounded: quick N=3 jobs (all 3^6 x 2^3 dependency shapes, every mention flavour per consumer); thorough '
-    'additionally N=3 with always_run before the commands, N=3 with edges that are both explicit and resource-induced '
-    '(one flavour per pipeline), N=4 over ALL acyclic dependency relations on 4 jobs (acyclicity stated to the solver '
-    'through position variables; file mentions) and N=4 over all relations, cyclic or not, with at most 4 edges + '
-    'self-dependencies. Counterexamples are solver models replayed concretely on the real code.'
+    'additionally N=4 over all relations, cyclic or not, with at most 4 edges + self-dependencies (file mentions), N=3 '
+    'acyclic with always_run before the commands, N=3 with edges that are both explicit and resource-induced (one '
+    'flavour per pipeline, no self-dependency) and N=4 over ALL acyclic dependency relations on 4 jobs (acyclicity '
+    'stated to the solver through existential order variables; file mentions). Counterexamples are solver models replayed concretely on the real code.'
 )
 SRC_BATCH = 'hail/python/hailtop/batch/batch.py'
 SRC_BACKEND = 'hail/python/hailtop/batch/backend.py'
@@ -54,10 +54,11 @@ def _configs(tier):
     if tier == 'quick':
         return [n3], 170
     return [
-        dict(n3, aro=[0, 1]),
-        dict(tag='N3both', N=3, kinds=[0, 1, 2, 3], aro=[0], global_flavour=True, nfix=3),
-        dict(tag='N4dag', N=4, kinds=[0, 1, 2], aro=[0], acyclic_only=True, fixed_flavour=0, nfix=3),
+        n3,
         dict(tag='N4le4', N=4, kinds=[0, 1, 2], aro=[0], max_total=4, fixed_flavour=0, nfix=2),
+        dict(tag='N3aro', N=3, kinds=[0, 1, 2], aro=[1], acyclic_only=True, nfix=2),
+        dict(tag='N3both', N=3, kinds=[0, 1, 2, 3], aro=[0], global_flavour=True, max_self=0, nfix=2),
+        dict(tag='N4dag', N=4, kinds=[0, 1, 2], aro=[0], acyclic_only=True, fixed_flavour=0, nfix=3),
     ], 1300
 
 
